@@ -486,6 +486,7 @@ impl RenderTable {
         let mut col_positions = BTreeSet::new();
         col_positions.insert(0);
         for row in &rows {
+            verif_tick!(Step);
             let mut col = 0;
             for cell in row.cells() {
                 col += cell.colspan;
@@ -500,6 +501,7 @@ impl RenderTable {
             .collect();
 
         for row in &mut rows {
+            verif_tick!(Step);
             let mut pos = 0;
             let mut mapped_pos = 0;
             for cell in row.cells_mut() {
@@ -2417,6 +2419,7 @@ fn render_table_tree<T: Write, D: TextDecorator>(
     let mut col_sizes: Vec<SizeEstimate> = vec![Default::default(); num_columns];
 
     for row in table.rows() {
+        verif_tick!(Step);
         let mut colno = 0;
         for cell in row.cells() {
             // FIXME: get_size_estimate is still recursive.
